@@ -15,8 +15,7 @@
     map; injectivity is the stated assumption); the model works with `canon g` itself.
 
   Not modelled: `description`, timestamps, `modifier`/`reason` free text other than the four reasons the code
-  itself passes, console output, `diff`, `validate`, `get_statistics` (its counters are functions of the log),
-  `from_dict`, `list_genes`, callbacks that re-enter the genome or tamper with the `Mutation` record.
+  itself passes, console output, `get_statistics` (its counters are functions of the log), callbacks that re-enter the genome or tamper with the `Mutation` record.
 -/
 namespace Operon.Genome
 
@@ -59,6 +58,10 @@ structure Env (ν : Type) where
   adv : Nat → Nat → Nat → ν → ν → Reason → Ans
   /-- global draw index → gene → current value → (mutate to this value | leave alone) -/
   rnd : Nat → Nat → ν → Option ν
+  /-- Python's `==` on stored values (used only by `diff`) -/
+  veq : ν → ν → Bool
+  /-- the value is Python's `None` (which `diff` cannot tell from a missing gene) -/
+  isNone : ν → Bool
 
 structure Genome (ν : Type) where
   allow : Bool                 -- allow_mutations
@@ -180,6 +183,29 @@ def getValue (g : Genome ν) (n : Nat) : Option ν :=
   | none => none
   | some x => if findLevel g.expr n = some .silenced then none else some x.value
 
+/-! ### read-only queries: validate, list_genes, diff -/
+
+/-- `validate()`: the required genes that are silenced (valid iff empty) -/
+def validate (g : Genome ν) : List Nat :=
+  (g.genes.filter fun x => x.required && findLevel g.expr x.name == some .silenced).map (·.name)
+
+/-- `list_genes()` (the level is `none` where the code would raise KeyError — unreachable, see
+    `c20_every_gene_has_expression_state`) -/
+def listGenes (g : Genome ν) : List (Nat × ν × GType × Option Level × Bool) :=
+  g.genes.map fun x => (x.name, x.value, x.gtype, findLevel g.expr x.name, x.required)
+
+/-- `this_val != other_val` with `None` standing for a missing gene -/
+def differs (env : Env ν) : Option ν → Option ν → Bool
+  | none, none => false
+  | some a, none => !env.isNone a
+  | none, some b => !env.isNone b
+  | some a, some b => !env.veq a b
+
+/-- `diff(other)`: names of either genome (this one's first) under which the two show different values -/
+def diff (env : Env ν) (g h : Genome ν) : List (Nat × Option ν × Option ν) :=
+  let names := g.genes.map (·.name) ++ (h.genes.map (·.name)).filter (fun n => !(g.genes.map (·.name)).contains n)
+  (names.filter fun n => differs env (valueOf g n) (valueOf h n)).map fun n => (n, valueOf g n, valueOf h n)
+
 /-! ### construction and replication -/
 
 def emptyGenome (allow : Bool) (cb : Option Nat) (rate : Bool) : Genome ν :=
@@ -250,6 +276,9 @@ inductive Op (ν : Type) where
   | replicate (i : Nat) (muts : List (Nat × ν)) (inherit : Bool)
   | express (i : Nat) (ctx : List Nat)
   | getValue (i : Nat) (n : Nat)
+  | validate (i : Nat)
+  | listGenes (i : Nat)
+  | diff (i : Nat) (j : Nat)
 
 inductive Obs (ν : Type) where
   | created (id : Nat)
@@ -258,6 +287,9 @@ inductive Obs (ν : Type) where
   | child (id : Nat)
   | config (c : List (Nat × ν))
   | value (v : Option ν)
+  | invalid (silencedRequired : List Nat)
+  | listing (l : List (Nat × ν × GType × Option Level × Bool))
+  | diffs (d : List (Nat × Option ν × Option ν))
   | bad
   deriving Repr, DecidableEq
 
@@ -301,6 +333,18 @@ def step (env : Env ν) (st : Store ν) : Op ν → Store ν × Obs ν
     match st.genomes[i]? with
     | none => (st, .bad)
     | some g => (st, .value (getValue g n))
+  | .validate i =>
+    match st.genomes[i]? with
+    | none => (st, .bad)
+    | some g => (st, .invalid (validate g))
+  | .listGenes i =>
+    match st.genomes[i]? with
+    | none => (st, .bad)
+    | some g => (st, .listing (listGenes g))
+  | .diff i j =>
+    match st.genomes[i]?, st.genomes[j]? with
+    | some g, some h => (st, .diffs (diff env g h))
+    | _, _ => (st, .bad)
 
 /-- the store after a history -/
 def run (env : Env ν) (st : Store ν) : List (Op ν) → Store ν
